@@ -97,9 +97,10 @@ static void expected(const int32_t * expn, int nn, int d, int32_t * out) {
     for (i = 0; i < nn; i++) out[i] = expn[i] == MARK ? d : expn[i];
 }
 
+#define ANYVAL (-2)               /* in a cases file: a suffix too long for the slot, its value is not compared */
 static int same_prefix(const int32_t * a, const int32_t * b, int n) {
     int i;
-    for (i = 0; i < n; i++) if (a[i] != b[i]) return 0;
+    for (i = 0; i < n; i++) if (a[i] != b[i] && a[i] != ANYVAL) return 0;
     return 1;
 }
 
